@@ -71,4 +71,6 @@ pub mod store;
 pub mod tals;
 pub mod utils;
 pub mod validity;
+#[cfg(routinator_verif)]
+pub mod verif;
 
